@@ -9,7 +9,7 @@
 (***************************************************************************)
 EXTENDS Containers, Json, IOUtils
 
-NV == 4
+NV == 5
 Depth == JsonDeserialize(IOEnv.PAR).depth
 E(op, v, w, i, sl, vals) == [op |-> op, v |-> v, w |-> w, i |-> i, sl |-> sl, vals |-> vals]
 
@@ -28,6 +28,11 @@ Alphabet(cls) ==
   \* linqset offers wedge and no sort (the linked implementation has no in-place sort)
   \o (IF cls = "linqset" THEN <<E("wedge", 3, 1, 1, "", <<>>), E("wedge", 4, 2, -1, "", <<>>)>>
       ELSE <<E("sort", 0, 0, 0, "", <<>>)>>)
+  \* predicate store: bulk replacements whose arriving values conflict with TWO different members, of which the
+  \* replaced slice may hold both, one or none
+  \o (IF cls = "Predicates" THEN <<E("setslice", 0, 0, 0, ":2", <<2, 5>>), E("setslice", 0, 0, 0, "::2", <<5, 2>>),
+                                   E("add", 5, 0, 0, "", <<>>)>>
+      ELSE <<>>)
 
 GenPost == LET A == Alphabet(IOEnv.CLS)
                seqs == SetToSeq([1..Depth -> 1..Len(A)])
@@ -38,8 +43,8 @@ GenPost == LET A == Alphabet(IOEnv.CLS)
 
 Cases == ndJsonDeserialize(IOEnv.CASES)
 
-\* predicate store: universe value 1 = F/1, 2 = F/2 (same symbol, other arity), 3 = G/1, 4 = H/2
-ConflictOf(cls) == IF cls = "Predicates" THEN {<<1, 2>>, <<2, 1>>} ELSE {}
+\* predicate store: universe value 1 = F/1, 2 = F/2 (same symbol, other arity), 3 = G/1, 4 = H/2, 5 = G/2
+ConflictOf(cls) == IF cls = "Predicates" THEN {<<1, 2>>, <<2, 1>>, <<3, 5>>, <<5, 3>>} ELSE {}
 
 RECURSIVE Walk(_, _, _)
 Walk(tr, s, j) ==
